@@ -52,3 +52,79 @@ def d2_requote_surrogate_lookahead(prop, mech, case, info, variant):
     except Exception:
         return False
     return predicted == c_out
+
+
+def _pop_root_normalize(segs):
+    """yarl's _make_child normalisation when the root marker is poppable:
+    segs is the full list including the leading '' root segment."""
+    out = []
+    for s in segs:
+        if s == "..":
+            if out:
+                out.pop()
+        elif s != ".":
+            out.append(s)
+    if segs and segs[-1] in (".", ".."):
+        out.append("")
+    p = "/".join(out)
+    if p and p[0] != "/":
+        p = "/" + p
+    return p
+
+
+@finding("D21", ["C15", "C14", "C13"])
+def d21_make_child_pops_root(prop, mech, case, info, variant):
+    """Mechanism: '/' or joinpath on a URL with an authority whose spliced path
+    climbs above the root with '..' and then continues: the '..' consumes the
+    empty root segment and the following segment is promoted into its place
+    (an empty segment is lost, e.g. URL('http://h') / '..//b' -> '/b' instead of
+    '//b').  Bug model: result == normalisation with a poppable root marker."""
+    if mech != "path_mismatch" or case.get("entry") not in ("div", "joinpath_all", "joinpath_steps"):
+        return False
+    spliced = info.get("_spliced")
+    got = info.get("got")
+    if not isinstance(spliced, str) or not spliced.startswith("/"):
+        return False
+    segs = spliced.split("/")  # leading '' is the root
+    # input predicate: some '..' occurs at depth 0 and is followed by at least one more segment
+    depth = 0
+    climbs = False
+    for i, s in enumerate(segs[1:], 1):
+        if s == "..":
+            if depth == 0 and i < len(segs) - 1:
+                climbs = True
+            depth = max(0, depth - 1)
+        elif s != ".":
+            depth += 1
+    if not climbs:
+        return False
+    return _pop_root_normalize(segs) == (got or "/") or (_pop_root_normalize(segs) or "/") == got
+
+
+@finding("D19", ["C14"])
+def d19_join_authorityless_base(prop, mech, case, info, variant):
+    """Mechanism: base URL without authority whose path is empty or rootless,
+    reference with a rootless path (RFC 5.2.3 merge branch).  yarl (a) prepends
+    '/' when the base path is empty although there is no authority, and (b)
+    removes dot segments of a rootless merged path as if it were rooted and
+    then drops the slash again, where RFC 5.2.4 can leave a leading '/'.
+    Bug model, exact: empty base path -> path == remove_dot_segments('/' + ref);
+    rootless base path -> path == remove_dot_segments('/' + merge)[1:]."""
+    if mech != "resolve_mismatch" or info.get("fields") != ["path"]:
+        return False
+    B, R = info.get("_B"), info.get("_R")
+    if not B or not R or B[1] is not None:
+        return False
+    # merge branch: reference (possibly carrying the base's own scheme) without authority, rootless non-empty path
+    if R[1] is not None or R[2] == "" or R[2].startswith("/") or (R[0] is not None and R[0] != B[0]):
+        return False
+    from .oracles import rfc3986 as rfc
+
+    bp, rp = B[2], R[2]
+    got = info["got"][2]
+    if bp == "":
+        return got == rfc.remove_dot_segments("/" + rp)
+    if not bp.startswith("/"):
+        merged = rfc.merge(False, bp, rp)
+        return got == rfc.remove_dot_segments("/" + merged)[1:]
+    return False
